@@ -35,7 +35,27 @@ func (w *W) newNondet(s *State, base, kind string, sort Sort) *Term {
 	name := fmt.Sprintf("%s#%d", base, s.ndBase+len(s.nondets))
 	v := Var(name, sort)
 	s.nondets = append(s.nondets, NondetRec{Name: name, Kind: kind, T: v})
+	if pv, ok := pinnedValue(name); ok { // debugging aid: SSASYM_PIN=<replay file> fixes the nondets
+		switch sort.K {
+		case KBool:
+			s.pc = append(s.pc, Eq(v, ConstBool(pv.Sign() != 0)))
+		case KBV:
+			s.pc = append(s.pc, Eq(v, ConstBV(pv, sort.W)))
+		case KFP:
+			s.pc = append(s.pc, Eq(mk("to_fp_bits", sort, ConstBV(pv, sort.W)), v))
+		}
+	}
 	return v
+}
+
+var pinned map[string]*big.Int
+
+func pinnedValue(name string) (*big.Int, bool) {
+	if pinned == nil {
+		return nil, false
+	}
+	v, ok := pinned[name]
+	return v, ok
 }
 
 // chooseInt forks over [0,n).
@@ -45,6 +65,11 @@ func (w *W) chooseInt(s *State, base string, n int) int {
 	}
 	name := fmt.Sprintf("%s#%d", base, s.ndBase+len(s.nondets))
 	v := Var(name, BV(64))
+	if pv, ok := pinnedValue(name); ok {
+		s.nondets = append(s.nondets, NondetRec{Name: name, Kind: "choose", T: v})
+		s.pc = append(s.pc, Eq(v, ConstBV(pv, 64)))
+		return int(pv.Int64())
+	}
 	pick := n - 1
 	for j := 0; j < n-1; j++ {
 		if w.decide(s, Eq(v, ConstI(int64(j), 64))) {
@@ -800,10 +825,60 @@ func init() {
 		"github.com/dgryski/go-wyhash.Hash": func(w *W, s *State, args []Value) Value {
 			ts := sliceTerms(s, args[0].(SliceV))
 			seed := term(args[1])
+			if s.hashInjective {
+				// stated assumption of the harness: the hash is collision-free on the values in play.
+				// Every application (concrete input too) is an uninterpreted value h from which an
+				// inverse recovers the length, the seed and every input byte.
+				h := UF(fmt.Sprintf("wyhashinj_%d", len(ts)), BV(64), append(ts, seed)...)
+				s.pc = append(s.pc, Eq(UF("wyhashinj_len", BV(8), h), ConstU(uint64(len(ts)), 8)), Eq(UF("wyhashinj_seed", BV(64), h), seed))
+				for i, t := range ts {
+					s.pc = append(s.pc, Eq(UF(fmt.Sprintf("wyhashinj_b%d", i), BV(8), h), t))
+				}
+				return h
+			}
 			if b, ok := allConst(ts); ok && seed.IsConst() {
 				return ConstU(wyhash.Hash(b, seed.C.Uint64()), 64)
 			}
 			return UF(fmt.Sprintf("wyhash_%d", len(ts)), BV(64), append(ts, seed)...)
+		},
+		zz + "AssumeHashInjective": func(w *W, s *State, args []Value) Value {
+			s.hashInjective = true
+			w.e.noteModel("assumption:wyhash collision-free on the values in play")
+			return TupleV{}
+		},
+		"strconv.AppendInt": func(w *W, s *State, args []Value) Value {
+			t := term(args[1])
+			base, _ := concInt(args[2])
+			var str StrV
+			if t.IsConst() {
+				str = StrV{S: signed(t.C, 64).Text(base)}
+			} else if base == 10 {
+				str = w.ufString(s, "decs", t).(StrV)
+			} else {
+				panic(execErr{"AppendInt symbolic non-decimal"})
+			}
+			return w.builtinAppendStr(s, args[0].(SliceV), str)
+		},
+		"strconv.AppendBool": func(w *W, s *State, args []Value) Value {
+			t := term(args[1])
+			str := StrV{S: "false"}
+			if w.decide(s, t) {
+				str = StrV{S: "true"}
+			}
+			return w.builtinAppendStr(s, args[0].(SliceV), str)
+		},
+		"strconv.AppendFloat": func(w *W, s *State, args []Value) Value {
+			t := term(args[1])
+			var str StrV
+			if f, ok := t.F64(); ok {
+				fm, _ := concInt(args[2])
+				prec, _ := concInt(args[3])
+				bits, _ := concInt(args[4])
+				str = StrV{S: strconv.FormatFloat(f, byte(fm), prec, bits)}
+			} else {
+				str = w.ufString(s, "fmtfloat", t).(StrV)
+			}
+			return w.builtinAppendStr(s, args[0].(SliceV), str)
 		},
 
 		zz + "UF32sha1": func(w *W, s *State, args []Value) Value {
